@@ -828,3 +828,18 @@ Proof.
   cbn [run trace exec fold_left]. destruct (step s o) as [s1 [r cs]] eqn:E. cbn [fst snd].
   rewrite (IH s1). reflexivity.
 Qed.
+
+(* what an acknowledged Mount leaves in the store *)
+Lemma mount_ok_records : forall s m l ok, closed s = false -> fst (snd (step s (Mount m l ok))) = ROk ->
+  exists c, cfg s = Some c /\ find (store (fst (step s (Mount m l ok)))) m = Some (l, c)
+            /\ tracked (fst (step s (Mount m l ok))) m.
+Proof.
+  intros s m l ok Cl. cbn [step]. destruct (stat s); cbn; try discriminate.
+  destruct (find (fsmap s) m) as [j|] eqn:F.
+  - destruct (cfg s) as [c|] eqn:Cf; cbn; [|discriminate]. intros _. exists c. unfold store_put, tracked. rewrite Cl. cbn.
+    split; [reflexivity|]. split; [apply find_put_eq|congruence].
+  - destruct (cur s) as [i|]; [|destruct (guard s); discriminate].
+    destruct ok; cbn; [|discriminate]. destruct (cfg s) as [c|] eqn:Cf; cbn; [|discriminate].
+    intros _. exists c. unfold store_put, tracked. rewrite Cl. cbn.
+    split; [reflexivity|]. split; [apply find_put_eq|]. rewrite find_put_eq. discriminate.
+Qed.
